@@ -1658,6 +1658,9 @@ def translate(repo, leaf):
     out.append("Definition %s%s%s : %s :=\n  %s." % (L, sp, binders, coq_type(rty), strip_outer(val)))
     out.append("Definition %s_ok%s%s : bool :=\n  %s." % (L, sp, binders, strip_outer(ok) if ok else "true"))
     out.append("Definition %s_dom%s%s : bool :=\n  %s." % (L, sp, binders, dom))
+    # what each binder stands for in the source (third audit, F2): a function that starts reading another field or
+    # index of the same width leaves the body alpha-equivalent; this list changes, and Proofs/Leaf*.v pin it
+    out.append("Definition %s_args : list string :=\n  [%s]." % (L, "; ".join('"%s : %s"%%string' % (p[3], tstr(p[2])) for p in plist)))
     return "\n".join(out) + "\n"
 
 def anchored_block(src, toks, blo, bhi, leaf, ctx):
@@ -1665,8 +1668,13 @@ def anchored_block(src, toks, blo, bhi, leaf, ctx):
     if leaf.get("macro"):
         die("anchors inside macro bodies are not supported")
     body = []
-    for ln in range(toks[blo].line, toks[bhi].line + 1):          # 1-based line numbers
-        body.append((ln, re.sub(r"//.*$", "", src.lines[ln - 1]).strip()))
+    first, last = toks[blo].line, toks[bhi].line
+    # block comments are removed first (newlines kept), so that a commented-out copy of an anchored line cannot stand
+    # in for the live one (third audit, F3)
+    chunk = "\n".join(src.lines[first - 1:last])
+    chunk = re.sub(r"/\*.*?\*/", lambda m: re.sub(r"[^\n]", " ", m.group(0)), chunk, flags=re.S)
+    for k, line in enumerate(chunk.split("\n")):
+        body.append((first + k, re.sub(r"//.*$", "", line).strip()))
     pieces = []
     last_line = 0
     for n, rx in enumerate(leaf["anchor"]):
@@ -1699,6 +1707,21 @@ def anchored_block(src, toks, blo, bhi, leaf, ctx):
             if let_stmt is None:
                 die("anchor %r: every anchored line but the last must be a let" % rx)
             pieces.append(let_stmt)
+    # a name the anchored text reads or binds must not be (re)bound or assigned on any other line between the function
+    # head and the last anchor: the anchored expression would no longer mean what the function computes
+    anchored_lines = set()
+    for rx in leaf["anchor"]:
+        anchored_lines.update(ln for ln, t in body if re.fullmatch(rx, t))
+    idents = set(re.findall(r"[A-Za-z_]\w*", " ".join(pieces))) - {"let", "mut", "as", "if", "else", "self", "true", "false", "u8", "u16", "u32", "u64", "usize", "i8", "i16", "i32", "i64", "isize"}
+    # (names listed in `vars` are inputs by declaration: their one binding outside the anchors is what the binder stands
+    # for, and the differential harness is what ties it; the check covers the function's own parameters and every other name)
+    idents -= set(leaf.get("vars", {}))
+    for ln, t in body:
+        if ln in anchored_lines or ln > last_line:
+            continue
+        for nm in idents:
+            if re.search(r"\blet\s+(?:mut\s+)?%s\b" % re.escape(nm), t) or re.search(r"(?<![.\w])%s\s*(?:[-+*/%%&|^]|<<|>>)?=(?!=)" % re.escape(nm), t):
+                die("fn %s: `%s` is bound or assigned on line %d (`%s`), outside the anchored lines - the anchored expression no longer stands for what the function computes" % (leaf["fn"], nm, ln, t[:80]))
     text = "{ " + " ".join(pieces) + " }"
     p = P(tokenize(text, leaf["file"]), ctx)
     expr = parse_block(p)
@@ -1711,7 +1734,8 @@ PRELUDE = """(* GENERATED by tools/gen_leaf.py from /repo/src on every run - do 
    (see the header of tools/gen_leaf.py); L_f is the value, L_f_ok is true iff the body does not panic in a debug
    build, L_f_dom is true iff every argument is in the range of its Rust type.  Proofs/Leaf*.v prove each equal to
    its hand-written model counterpart. *)
-From Coq Require Import NArith Bool.
+From Coq Require Import NArith Bool List String.
+Import ListNotations.
 Open Scope N_scope.
 Open Scope bool_scope.
 
